@@ -127,6 +127,18 @@ def run_program(tid: int, program: list, pool: list, hook, out: list) -> None:
             continue
         kind, ci, vi, fail_at = op
         ent = pool[ci]
+        if kind == "wbad":
+            # an encode that fails part-way because of the VALUE (not the stream): the outcome of
+            # this call is not judged, only what later calls do
+            bads = ent["bad"][vi]
+            if bads:
+                sink = SchedSink(hook, None)
+                try:
+                    entity_writer(ent["cls"])(sink, bads[fail_at % len(bads)])
+                    out.append({"note": "bad_value_accepted", "id": f"t{tid}o{oi}"})
+                except BaseException:  # noqa: BLE001
+                    out.append({"note": "injected", "id": f"t{tid}o{oi}", "kind": "wbad"})
+            continue
         cls, schema = ent["cls"], ent["schema"]
         aval, raw = ent["values"][vi], ent["bytes"][vi]
         cid = f"t{tid}o{oi}"
@@ -264,6 +276,7 @@ FIXED_POOL = [
     ("kio.schema.describe_topic_partitions.v0.request", "DescribeTopicPartitionsRequest"),
     ("kio.schema.metadata.v12.response", "MetadataResponse"), ("kio.schema.metadata.v5.response", "MetadataResponse"),
     ("kio.schema.alter_client_quotas.v1.request", "AlterClientQuotasRequest"),
+    ("kio.schema.describe_client_quotas.v1.response", "DescribeClientQuotasResponse"),
     ("kio.schema.create_topics.v5.response", "CreateTopicsResponse"),
     ("kio.schema.produce.v9.response", "ProduceResponse"),
     ("kio.schema.fetch.v17.response", "FetchResponse"),
@@ -292,6 +305,10 @@ def build_pool_inputs(seed: int, extra: int) -> tuple[list, dict]:
             s = Sampler(seed * 7919 + ci * 31 + vi, profile=["max", "mixed"][vi])
             v = s.value(schema, budget=80)
             values.append(v)
+        if has_float(schema):
+            s = Sampler(seed * 7919 + ci * 31, profile="max")
+            values = signed_zero_pair([s.value(schema, budget=80)], schema)
+        for vi, v in enumerate(values):
             cases.append({"id": f"pool{ci}_{vi}", "sid": schema["sid"], "value": v, "var": {"expl": 0, "unk": []}})
         pool.append({"mod": mod, "qual": qual, "sid": schema["sid"], "values": values})
     return pool, {"schemas": schemas, "cases": cases}
@@ -310,10 +327,81 @@ def materialise_pool(pool: list, encoded: list) -> list:
     for ci, ent in enumerate(pool):
         cls = getattr(importlib.import_module(ent["mod"]), ent["qual"])
         schema = project.project_schema(cls)
+        insts = [project.build_entity(v, schema) for v in ent["values"]]
         out.append({"cls": cls, "schema": schema, "values": ent["values"],
-                    "instances": [project.build_entity(v, schema) for v in ent["values"]],
+                    "instances": insts, "bad": [bad_variants(i, schema) for i in insts],
                     "bytes": [project.unbabs(enc[f"pool{ci}_{vi}"]["b"]) for vi in range(2)]})
     return out
+
+
+def bad_variants(inst, schema: dict, limit: int = 6) -> list:
+    """Instances that make the encoder raise part-way: one field (preferring tagged and late ones,
+    also inside nested structs) replaced by a value its writer cannot encode."""
+    import dataclasses
+    out = []
+
+    def bad_for(fs):
+        if fs["kind"] == "struct":
+            return None
+        kt = fs["ktype"]
+        if fs["arr"]:
+            return ("\ud800",) if kt == "string" else (2**70,) if kt.startswith(("int", "uint")) else None
+        if kt == "string":
+            return "\ud800"
+        if kt.startswith(("int", "uint")):
+            return 2**70
+        if kt in ("bytes", "records"):
+            return 12345
+        return None
+
+    def walk(obj, sch, rebuild):
+        fields = sorted(sch["fields"], key=lambda f: (f["tag"] < 0, -sch["fields"].index(f)))
+        for fs in fields:
+            if len(out) >= limit:
+                return
+            b = bad_for(fs)
+            if b is not None:
+                try:
+                    out.append(rebuild(dataclasses.replace(obj, **{fs["name"]: b})))
+                except Exception:  # noqa: BLE001
+                    pass
+            elif fs["kind"] == "struct":
+                v = getattr(obj, fs["name"])
+                if fs["arr"] and v:
+                    walk(v[-1], fs["sub"], lambda x, fs=fs, v=v: rebuild(
+                        dataclasses.replace(obj, **{fs["name"]: v[:-1] + (x,)})))
+                elif not fs["arr"] and v is not None:
+                    walk(v, fs["sub"], lambda x, fs=fs: rebuild(dataclasses.replace(obj, **{fs["name"]: x})))
+
+    walk(inst, schema, lambda x: x)
+    return out
+
+
+def signed_zero_pair(values: list, schema: dict) -> list:
+    """values[0] with every float +0.0 and values[1] = the same with -0.0: equal Python values that
+    must encode differently (a memo keyed by == would confuse them)."""
+    from .project import afloat
+
+    def subst(a, sch, z):
+        if "rec" not in a:
+            return a
+        res = []
+        for fs, x in zip(sch["fields"], a["rec"]):
+            if fs["kind"] == "struct":
+                if "seq" in x:
+                    x = {"seq": [subst(i, fs["sub"], z) for i in x["seq"]]}
+                else:
+                    x = subst(x, fs["sub"], z)
+            elif fs["ktype"] == "float64" and "f64" in x:
+                x = afloat(z)
+            res.append(x)
+        return {"rec": res}
+    return [subst(values[0], schema, 0.0), subst(values[0], schema, -0.0)]
+
+
+def has_float(schema: dict) -> bool:
+    return any((fs["kind"] == "struct" and has_float(fs["sub"])) or fs["ktype"] == "float64"
+               for fs in schema["fields"])
 
 
 def count_ops(pool: list) -> list:
